@@ -2,7 +2,7 @@
   Static facts for the fresh EditDistance: the sum of the k smallest entries of a list is at most the sum of any
   k of its entries; the greedy matrix' corner is at least the sum of |nf - nt| entries of the longer side.
 -/
-import GtModel.Proofs.LazyDefs
+import GtModel.Proofs.LazyDefsMs
 
 namespace GtModel.Lazy
 open GtModel.EditMatrix (Cell Move step spec goLeft goUp goDiag cellAt origin spec_induction)
@@ -66,9 +66,6 @@ theorem sortNat_sum (l : List Nat) : (sortNat l).sum = l.sum := by
   induction l with
   | nil => simp [sortNat]
   | cons x xs ih => simp [sortNat, insertNat_sum, ih]; omega
-
-/-- sum of the `k` smallest -/
-def ksm (k : Nat) (l : List Nat) : Nat := ((sortNat l).take k).sum
 
 theorem take_sum_le_sum (l : List Nat) (k : Nat) : (l.take k).sum ≤ l.sum := by
   induction l generalizing k with
